@@ -1,9 +1,13 @@
 CHECK = {
-    "mode": "inpkg", "pkg": "llm", "files": ["c16_memest_test.go"],
+    "builds": [
+        {"mode": "inpkg", "pkg": "llm", "files": ["c16_memest_test.go"]},
+        # the place where the scheduler declares "fits completely" (server/sched.go pickBestFullFitByLibrary / pickBestPartialFitByLibrary)
+        {"mode": "inpkg", "pkg": "server", "files": ["c16_sched_test.go"]},
+    ],
     "level": "exploration",
     "engine": "memest",
     "technique": "property-based testing (rapid, shrinking) of llm.EstimateGPULayers / llm.PredictServerFit over generated "
-                 "model shapes x GPU lists x options with a validity-predicate oracle (independent, individually tagged clauses)",
+                 "model shapes x GPU lists x options with a validity-predicate oracle (independent, individually tagged clauses); and of the scheduler's full-fit declaration (pickBestFullFitByLibrary) against the estimate the loader makes on the list it returns",
     "level_text": "Randomised exploration of model shape x GPU list x options. Each case writes a GGUF header with the real "
                   "WriteGGUF (payloads elided), decodes it with the real Decode and calls the real estimator; GPU memory is "
                   "sized around a harness-side estimate of the model's needs so that zero, partial, capped and full offload, "
@@ -19,7 +23,10 @@ CHECK = {
     "design_ref": "DESIGN.md section 3 C16",
     "targets": [{"name": "TestC16MemoryEstimate",
                  "quick": {"cases": 2500, "shards": 4, "soft_s": 40},
-                 "thorough": {"cases": 30000, "shards": 16, "soft_s": 330}}],
+                 "thorough": {"cases": 30000, "shards": 12, "soft_s": 330}},
+                {"name": "TestC16SchedFit", "build": 1,
+                 "quick": {"cases": 20000, "shards": 2, "soft_s": 30},
+                 "thorough": {"cases": 400000, "shards": 4, "soft_s": 300}}],
     "floors": {"multi_gpu": 0.3, "multi_gpu_dropout_midway": 0.03, "multi_gpu_some_not_admitted": 0.05,
                "uneven_layers": 0.2, "partial_offload": 0.1, "full_offload": 0.1, "zero_layers": 0.08,
                "capped_by_numgpu": 0.05, "free_lt_overhead": 0.04, "fits_true": 0.08, "overhead_set": 0.4,
@@ -35,7 +42,7 @@ CHECK = {
             "total-ge-vram, cpu-zero, fit-implies-all-layers, panic; the same clauses are evaluated again after giving one GPU "
             "more free memory (the monotonicity of Layers under that change is only counted: bump_fewer_layers_recorded_only). Non-trivial = at least 2 GPUs with one dropping out "
             "midway (split spread >= 3 among admitted GPUs), or uneven per-block sizes with at least one layer offloaded; "
-            "distinct = distinct hash of the generated case.",
+            "distinct = distinct hash of the generated case. TestC16SchedFit: llama-shaped model of 1-12 uneven blocks; 1-5 GPUs in one or two libraries, free memory a drawn fraction of the requirement or tight (what the estimator books there when memory is plentiful + 0-2 layers), listed in a drawn discovery order; parallel automatic/1/2, OLLAMA_SCHED_SPREAD, num_gpu; a declared complete fit must name GPUs of the input of one library, leave NumCtx = context x parallel, and the estimator run on the returned list in the returned order must place every promised layer; non-trivial there = a declared fit that spans GPUs whose discovery order is not descending free memory.",
     "assumptions": ["model metadata is well-formed (head_count >= 1, head_count_kv >= 1 or absent, tokenizer.ggml.tokens present, "
                     "llama.feed_forward_length present when blk.0.ffn_gate_exps exists, projector patch_size >= 1): malformed "
                     "files are C10's domain",
